@@ -302,6 +302,13 @@ def cross_case(ctx, h, tmp, fmt):
         bad = _json.dumps(dd)
     if bad == good:
         return
+    # a third of the XMI cases also *contain* an object of A through an href child element: the loader moves it the moment
+    # the element is read (recorded finding F-C18-1)
+    trigger = 'none'
+    if fmt == 'xmi' and h % 3 == 2 and '</cx:N>' in bad:
+        i = bad.rindex('</cx:N>')
+        bad = bad[:i] + '  <kids href="a.xmi#//@kids.0"/>\n' + bad[i:]
+        trigger = 'containment-href-into-loaded-resource'
     with open(pb, 'w') as fh:
         fh.write(bad)
     r2 = rs()
@@ -342,12 +349,12 @@ def cross_case(ctx, h, tmp, fmt):
     try:
         after_state = state()
     except Exception as e:
-        ctx.violate({'clause': 'other-resource-changed', 'format': fmt},
+        ctx.violate({'clause': 'other-resource-changed', 'format': fmt, 'trigger': trigger},
                     f'after a failed load ({raised}) of b.{fmt}, reading the previously loaded a.{fmt} raises {type(e).__name__}: {str(e)[:100]}', rep)
         return
     if after_state != before_state:
         diff = next((a, b) for a, b in zip(before_state, after_state) if a != b)
-        ctx.violate({'clause': 'other-resource-changed', 'format': fmt},
+        ctx.violate({'clause': 'other-resource-changed', 'format': fmt, 'trigger': trigger},
                     f'after a failed load ({raised}) of b.{fmt} an object of the previously loaded a.{fmt} changed: {diff[0]} -> {diff[1]}', rep)
 
 
